@@ -67,6 +67,7 @@ fn with_world<R>(name: &str, cfg: Config, f: impl FnOnce(&mut dyn World) -> R) -
         "S2" => go!(SetWorld::<KeyU16>::new(cfg)),
         "S8" => go!(SetWorld::<Key8>::new(cfg)),
         "S24" => go!(SetWorld::<Key24>::new(cfg)),
+        "Ss" => go!(SetWorld::<crate::elem::KeyS>::new(cfg)),
         "T24" => go!(TableWorld::<Elem24>::new(cfg)),
         "Tzd" => go!(TableWorld::<ZstDrop>::new(cfg)),
         "Tzp" => go!(TableWorld::<ZstPod>::new(cfg)),
